@@ -135,7 +135,7 @@ func Preset(prop string, adversarial bool, r *scen.Rand) *Params {
 		p.EditValueP = 0.1
 		p.Counts = []int{1, 2, 3}
 		p.RunP = 0.4
-		p.TasksP = 0.2 // registrations made by parallel tests count as well
+		p.TasksP = 0.2       // registrations made by parallel tests count as well
 		p.PreCorruptP = 0.06 // a damaged neighbour file must not cost an addressed entry of another file
 		p.CleanP = 1
 		p.SortP = 0.4
@@ -160,7 +160,7 @@ func Preset(prop string, adversarial bool, r *scen.Rand) *Params {
 		p.Alpha = Alpha{Plain: 10, Framing: 0, Structured: 1}
 		p.Envs = allEnvs
 		p.EditKinds = []string{"removecall", "removetest", "removesub", "skip", "addcall", "addtest", "retarget"}
-		p.FaultP = 0.1 // a directory that cannot be listed excuses that directory only
+		p.FaultP = 0.1    // a directory that cannot be listed excuses that directory only
 		p.InvalidP = 0.06 // calls that fail before anything is written: a registered file that never comes into being
 		p.UpdateOpt = 0.2
 		p.PreCorruptP = 0.06
